@@ -86,7 +86,8 @@ def run_case(decls):
         ev = {'decls': decls, 'fixed': FIXED, 'nodist': NODIST,
               'members': [], 'srctree': listing(p.src), 'refs': [],
               'dist_exit': -1, 'reconf_exit': -1, 'reconf_equal': False,
-              'later_exit': 0, 'later_missing': []}
+              'later_exit': 0, 'later_missing': [],
+              'other_formats_missing': []}
         rc, out = p.configure()
         if rc != 0:
             ev['note'] = out[-300:]
@@ -111,6 +112,30 @@ def run_case(decls):
                 if len(parts) == 2 and parts[1] and not x.endswith('/'):
                     mem.append(os.path.normpath(parts[1]))
             ev['members'] = sorted(mem)
+            # the other archive formats hold the same members
+            import tarfile
+            import zipfile
+            for tgt, suffix in (('dist-bzip2', '.tar.bz2'),
+                                ('dist-zip', '.zip')):
+                rcx, outx = p.tool([tgt])
+                arch = [x for x in os.listdir(p.bld) if x.endswith(suffix)]
+                names = []
+                if rcx == 0 and arch:
+                    a = os.path.join(p.bld, arch[0])
+                    try:
+                        if suffix == '.zip':
+                            names = zipfile.ZipFile(a).namelist()
+                        else:
+                            names = tarfile.open(a).getnames()
+                    except Exception:      # noqa: an unreadable archive
+                        names = []
+                got = {os.path.normpath(x.split('/', 1)[1]) for x in names
+                       if '/' in x and x.split('/', 1)[1] and
+                       not x.endswith('/')}
+                got = {x for x in got if not os.path.isdir(
+                    os.path.join(p.src, x))}
+                ev['other_formats_missing'] += [
+                    tgt + ':' + m for m in sorted(set(mem) - got)][:5]
             un = os.path.join(p.root, 'unpacked')
             os.makedirs(un)
             subprocess.run(['tar', '-xzf', t, '-C', un], check=False)
